@@ -57,9 +57,19 @@ def _sysroot():
 def facts_path(repo="/repo", features="", verbose=False):
     """returns (path_to_facts_json, sha, was_cached, seconds)"""
     t0 = time.time()
-    os.makedirs(os.path.join(CACHE, "facts"), exist_ok=True)
+    os.makedirs(CACHE, exist_ok=True)
     fname = features.replace(",", "+") or "default"
-    lock_path = os.path.join(CACHE, "extract-%s.lock" % fname)
+    is_repo = os.path.abspath(repo) == "/repo"
+    slot = os.environ.get("UTPSA_TARGET_SLOT")
+    if is_repo:
+        tkey = "repo"
+    elif slot:
+        tkey = "slot" + slot
+    else:
+        tkey = hashlib.sha256(os.path.abspath(repo).encode()).hexdigest()[:8]
+    facts_dir = os.path.join(CACHE, "facts" if is_repo else "facts-scratch")
+    os.makedirs(facts_dir, exist_ok=True)
+    lock_path = os.path.join(CACHE, "extract-%s-%s.lock" % (tkey, fname))
     with open(lock_path, "w") as lock:
         fcntl.flock(lock, fcntl.LOCK_EX)
         ensure_driver()
@@ -69,20 +79,24 @@ def facts_path(repo="/repo", features="", verbose=False):
         h.update(features.encode())
         h.update(os.path.abspath(repo).encode())
         sha = h.hexdigest()[:20]
-        out = os.path.join(CACHE, "facts", "%s-%s.json" % (fname, sha))
+        out = os.path.join(facts_dir, "%s-%s.json" % (fname, sha))
         if os.path.exists(out) and os.path.getsize(out) > 1000:
             return out, sha, True, time.time() - t0
         # keep the cache small: drop older fact files of this configuration
-        old = sorted(glob.glob(os.path.join(CACHE, "facts", "%s-*.json" % fname)), key=os.path.getmtime)
+        old = sorted(glob.glob(os.path.join(facts_dir, "%s-*.json" % fname)), key=os.path.getmtime)
         for p in old[:-3]:
             try:
                 os.unlink(p)
             except OSError:
                 pass
-        # one target dir per (repo path, features): a scratch copy must not poison /repo's cache
-        tkey = hashlib.sha256(os.path.abspath(repo).encode()).hexdigest()[:8] if os.path.abspath(repo) != "/repo" else "repo"
         target = os.path.join(CACHE, "target-%s-%s" % (tkey, fname))
-        os.makedirs(target, exist_ok=True)
+        if not os.path.isdir(target):
+            # warm start: registry dependencies' metadata is identical whatever the member's path
+            warm = os.path.join(CACHE, "target-repo-%s" % fname)
+            if tkey != "repo" and os.path.isdir(warm):
+                shutil.copytree(warm, target, symlinks=True)
+            else:
+                os.makedirs(target, exist_ok=True)
         # cargo's freshness cache would skip the wrapper: force the member to be rebuilt
         for p in glob.glob(os.path.join(target, "debug", ".fingerprint", "librqbit-utp-*")):
             shutil.rmtree(p, ignore_errors=True)
